@@ -1656,8 +1656,8 @@ def same_under_hash_orders(expr, ns, ints, chars, order_a, order_b):
 
 RO_KEYS = ("a", "b", "ab", "", "a b", "é", "0", "aa")
 RO_SEPS = (".", "a", "..", "__", "-", " ")
-RO_KEYSETS = (("a", "b", "ab", "", "a b"), ("a", "a", "a", "a", "b"), ("é", "0", "aa", "b", "a"), ("b", "ab", "a", "b", "ab"),
-              ("", "", "", "", "a"), ("ab", "a", "b", "aa", "0"), ("x", "y", "x", "y", "x"), ("b", "", "b", "", "é"),
+RO_KEYSETS = (("a", "b", "ab", "", "a b"), ("b", "0", "é", "b", "0"), ("é", "0", "aa", "b", "a"), ("b", "ab", "a", "b", "ab"),
+              ("", "b", "0", "", "é"), ("ab", "a", "b", "aa", "0"), ("a", "a", "a", "a", "b"), ("b", "", "b", "", "é"),
               ("0", "00", "000", "0", "00"), ("a b", "b a", "ab", "ba", "a"))
 
 
